@@ -751,6 +751,11 @@ def slot_rule(run, ctx):
             run.violation(fam, label, "delegate-end", H.where(pu), "DelegateBuilder must take end_group from the last pushed Info")
         if "%s.expr.to_str(self.re,1)" % INFO not in c:
             run.violation(fam, label, "delegate-precedence", H.where(pu), "delegated sub-expressions are concatenated: each must be printed at precedence 1")
+        # the delegate's pattern text is produced by Expr::to_str only (quoting, grouping, (?i:..) all live there)
+        writers = [H.canon(nd) for nd in H.walk(pu["body"]) if nd.get("k") in ("MethodCall", "Call") and any(H.canon(a) == "self.re" for a in (nd.get("args") or []) + ([nd["recv"]] if nd.get("k") == "MethodCall" else []))]
+        n += 1
+        if writers != ["%s.expr.to_str(self.re,1)" % INFO]:
+            run.violation(fam, label, "delegate-text-writers", H.where(pu), "the delegated pattern text must be produced only by Expr::to_str (which quotes literals and adds grouping / (?i:..)); DelegateBuilder::push also writes it through %s" % [w_ for w_ in writers if w_ != "%s.expr.to_str(self.re,1)" % INFO])
     bu = S.get_fn(run, ctx, "compile::DelegateBuilder::build", fam, label)
     if bu is not None:
         c = H.canon(bu["body"])
